@@ -159,7 +159,10 @@ def typ(p):
             if p.accept("p", "="):
                 val = p.expect("num")
             body.append((tag, val))
-            p.accept("p", ",")
+            # enumerator_list ::= enumerator { "," enumerator }: the separator is mandatory between two enumerators
+            if not p.accept("p", ","):
+                if p.peek() != ("p", "}"):
+                    raise A2mlError("enumerators %r and %r are not separated by a comma" % (tag, p.peek()[1]))
     elif v == "struct":
         while not p.accept("p", "}"):
             body.append(member(p))
